@@ -127,6 +127,9 @@ func Sparse6Decode(s string) (*SparseGraph, error) {
 	}
 
 	//Check the initial byte and remove it.
+	if len(s) == 0 {
+		return &SparseGraph{}, errors.New("String too short - missing the initial :")
+	}
 	if s[0] != 58 {
 		return &SparseGraph{}, fmt.Errorf("Incorrect first character. Expected: : Found: %v", s[0])
 	}
@@ -142,13 +145,14 @@ func Sparse6Decode(s string) (*SparseGraph, error) {
 	var n uint64
 	i := 0
 
-	if s[0] != 126 {
+	if len(s) == 0 {
+		return &SparseGraph{}, errors.New("String too short - unable to decode n")
+	} else if s[0] != 126 {
 		n = uint64(s[0] - 63)
 		i = 1
+	} else if len(s) < 4 {
+		return &SparseGraph{}, errors.New("String too short - unable to decode n")
 	} else if s[1] != 126 {
-		if len(s) < 4 {
-			return &SparseGraph{}, errors.New("String too short - unable to decode n")
-		}
 		n = (uint64(s[1]-63) << 12) + (uint64(s[2]-63) << 6) + uint64(s[3]-63)
 		i = 4
 	} else {
@@ -160,42 +164,30 @@ func Sparse6Decode(s string) (*SparseGraph, error) {
 	}
 
 	g := NewSparse(int(n), nil)
-	v := 0
+	if n == 0 {
+		return g, nil
+	}
+	//Each pair is a bit b followed by the k bits of x. An incomplete pair at the end is discarded.
 	k := 64 - bits.LeadingZeros64(n-1)
-	var bitIndex uint
-	for {
-		b := ((s[i] - 63) >> (5 - bitIndex)) & 1
-		bitIndex++
-		if bitIndex == 6 {
-			bitIndex = 0
-			i++
-			if i >= len(s) {
-				return g, nil
-			}
-		}
-		if b == 1 {
+	v := 0
+	pos := 0 //The number of bits read so far.
+	for 6*(len(s)-i)-pos >= k+1 {
+		if ((s[i+pos/6]-63)>>uint(5-pos%6))&1 == 1 {
 			v++
 		}
+		pos++
 		x := 0
 		for j := 0; j < k; j++ {
-			if ((s[i]-63)>>(5-bitIndex))&1 == 1 {
-				x |= 1 << uint(k-j-1)
-			}
-			bitIndex++
-			if bitIndex == 6 {
-				bitIndex = 0
-				i++
-				if i >= len(s) {
-					return g, nil
-				}
-			}
+			x = x<<1 | int(((s[i+pos/6]-63)>>uint(5-pos%6))&1)
+			pos++
 		}
 		if x > v {
 			v = x
-		} else {
+		} else if v < int(n) {
 			g.AddEdge(v, x)
 		}
 	}
+	return g, nil
 }
 
 //Sparse6Encode returns an encoding of g. Note that the encoding is not unique but this should align with the format used by showg, geng, nauty etc.
